@@ -232,7 +232,18 @@ func ruleR05d(c *Ctx) {
 	// Append adds at the tail: pending = append(pending, x)
 	if app := c.MustFn(rule, pkgBatching, "Batcher.Append"); app != nil {
 		tail := false
-		for _, b := range app.Blocks {
+		// Append, or the helper of the package it delegates the insertion to (`enqueue`)
+		var appBlocks []*ssa.BasicBlock
+		appBlocks = append(appBlocks, app.Blocks...)
+		for _, f := range c.AllInstancesOf(app) {
+			appBlocks = append(appBlocks, f.Blocks...)
+			allCalls(f, func(ci ssa.CallInstruction) {
+				if g := staticCallee(ci); g != nil && fnPkgPath(origin(g)) == pkgBatching && len(g.Blocks) > 0 {
+					appBlocks = append(appBlocks, g.Blocks...)
+				}
+			})
+		}
+		for _, b := range appBlocks {
 			for _, ins := range b.Instrs {
 				if v, _, ok := storeToField(ins, pending); ok {
 					if call, ok := v.(*ssa.Call); ok {
